@@ -2,11 +2,11 @@ SPECIFICATION Spec
 CONSTANTS
   Modes = {"do-nothing", "queue", "restart", "signal"}
   Postpones = {TRUE, FALSE}
-  Ds = {1}
-  Delays = {0, 2}
-  Gs = {2}
+  Ds = {1, 2}
+  Delays = {0, 1, 3}
+  Gs = {0, 2}
   MaxChanges = 4
-  MaxTime = 11
+  MaxTime = 13
   WaiterAtomic = TRUE
   Inf = 1000
 INVARIANTS Freshness FirstRun PostponedWaits DoNothingInert SignalOnlySignals QueueInert OneRunPerBatch KillAtTimeout QueuedHasWaiter
